@@ -342,6 +342,15 @@ def ser_value(v):
 EXT_NAMES = ["foo", "foo.bar", "a.b.c", "ext_é", "prelude", "arithmetic.int.types", "q", "Zed", "x.y"]
 DEF_NAMES = ["T", "U", "op", "op2", "Not", "lift", "MyType", "v", "w", "größe", "a_b", "X9"]
 DESCRS = ["", "plain", "dèscription ∀ α→β", "line\nbreak \"quoted\" \\ back", "日本語", "tab\there", "x" * 40]
+DESCR_ALPHABET = " aZ0_é∀\n\t\"\\'{}[],:.-日"
+
+
+def rand_descr(rng):
+    if rng.random() < 0.5:
+        return rng.choice(DESCRS)
+    return "".join(rng.choice(DESCR_ALPHABET) for _ in range(rng.randint(0, 12)))
+
+
 PRE = [None, None, None, "alpha", "alpha.1", "rc.2", "0.3.7", "x-y"]
 BUILD = [None, None, None, "b5", "exp.sha.5114f85", "001"]
 
@@ -435,7 +444,7 @@ def rand_hist(rng, big=False):
                 bound = ["E", rng.choice("AC")]
             else:
                 bound = ["F", [rng.randrange(len(params)) for _ in range(rng.randint(0, len(params) + 1))]]   # any order, repeats
-            cmds.append({"c": "type", "name": rng.choice(names), "descr": rng.choice(DESCRS), "params": params, "bound": bound})
+            cmds.append({"c": "type", "name": rng.choice(names), "descr": rand_descr(rng), "params": params, "bound": bound})
         elif r < 0.8:
             s = rng.random()
             sig, binary, func = None, False, False
@@ -452,7 +461,7 @@ def rand_hist(rng, big=False):
                        "out": [rand_type(rng) for _ in range(rng.randint(0, 2))], "reqs": reqs}
                 func = not params and rng.random() < 0.5
             misc = {} if rng.random() < 0.6 else {rng.choice(["commutative", "k", "ü", "z"]) + str(i): rand_json(rng) for i in range(rng.randint(1, 3))}
-            cmds.append({"c": "op", "name": rng.choice(names), "descr": rng.choice(DESCRS), "misc": misc,
+            cmds.append({"c": "op", "name": rng.choice(names), "descr": rand_descr(rng), "misc": misc,
                          "sig": sig, "binary": binary, "func": func})
         else:
             cmds.append({"c": "value", "name": rng.choice(names), "val": rand_value(rng)})
@@ -494,11 +503,11 @@ def rand_doc(rng, edge):
         params = [param_serial(rand_param(rng)) for _ in range(rng.choice([0, 1, 2]))]
         bound = {"b": "Explicit", "bound": rng.choice("AC")} if rng.random() < 0.5 or not params else \
             {"b": "FromParams", "indices": [rng.randrange(len(params)) for _ in range(rng.randint(0, len(params) + 1))]}
-        types[key(n)] = {"extension": own(), "name": n, "description": rng.choice(DESCRS), "params": params, "bound": bound}
+        types[key(n)] = {"extension": own(), "name": n, "description": rand_descr(rng), "params": params, "bound": bound}
     for n in rng.sample(DEF_NAMES, rng.randint(0, 2)):
         values[key(n)] = {"extension": own(), "name": n, "typed_value": rng.choice(RAW_VALUES)}
     for n in rng.sample(DEF_NAMES, rng.randint(0, 5)):
-        o = {"extension": own(), "name": n, "description": rng.choice(DESCRS)}
+        o = {"extension": own(), "name": n, "description": rand_descr(rng)}
         r = rng.random()
         if r < 0.75:
             q = rng.random()
